@@ -749,7 +749,8 @@ fn op_c16() -> BoxedStrategy<Op> {
         4 => (0u8..POOL as u8).prop_map(Op::Append),
         4 => (pos_any(), vals(6)).prop_map(|(p, v)| Op::SetRange(p, v)),
         3 => op_batch(),
-        2 => proptest::collection::vec(any::<u8>(), 0..40).prop_map(Op::SetMetadata),
+        2 => proptest::collection::vec(any::<u8>(), 1..40).prop_map(Op::SetMetadata),
+        1 => Just(Op::SetMetadata(vec![])),
         1 => (prop_oneof![Just(4096usize), Just(65536usize), 1000usize..200_000], any::<u8>()).prop_map(|(n, b)| Op::SetMetadata((0..n).map(|i| b.wrapping_add((i % 251) as u8)).collect())),
         2 => Just(Op::Flush),
         2 => Just(Op::Reopen),
@@ -836,6 +837,26 @@ impl Property for C16 {
         let api = prop_oneof![4 => Just(Api::Trait), 1 => Just(Api::Rln)];
         (depth, cfg_strategy(), api, proptest::collection::vec(op_c16(), 1..14), mode)
             .prop_map(|(depth, cfg, api, mut ops, mode)| {
+                if let Mode::Crash { sel } = mode {
+                    // "every kind of mutation followed by a flush survives a crash": the history ends with
+                    // one mutation (kind chosen by the selector), a flush, and one more single write
+                    let z = |raw: u16| Pos { kind: PosKind::Uniform, raw };
+                    let last = match sel % 7 {
+                        0 => Op::Set(Pos { kind: PosKind::Zero, raw: 0 }, 3),
+                        1 => Op::Append(4),
+                        2 => Op::Delete(Pos { kind: PosKind::Zero, raw: 0 }),
+                        3 => Op::SetRange(Pos { kind: PosKind::Zero, raw: 0 }, vec![1, 2]),
+                        4 => Op::Batch(Pos { kind: PosKind::Zero, raw: 0 }, vec![], vec![Pos { kind: PosKind::Zero, raw: 0 }, z(9000)]),
+                        5 => Op::SetMetadata(vec![7, 7, 7]),
+                        _ => Op::SetRange(Pos { kind: PosKind::MarkMinus1, raw: 0 }, vec![5, 1]),
+                    };
+                    ops.truncate(9);
+                    // something to overwrite / remove first
+                    ops.push(Op::SetRange(Pos { kind: PosKind::Zero, raw: 0 }, vec![1, 2, 3]));
+                    ops.push(last);
+                    ops.push(Op::Flush);
+                    ops.push(Op::Set(Pos { kind: PosKind::CapMinus1, raw: 0 }, 2));
+                }
                 tame_for_depth20(depth, &mut ops);
                 Case { depth, cfg, api, ops, mode }
             })
@@ -868,7 +889,22 @@ impl Property for C16 {
                     let span = (trace.total - lo) as usize;
                     let a = lo + pick_index(sel, span) as u64;
                     let b = lo + pick_index(sel.wrapping_mul(40503), span) as u64;
-                    (if ctx.tier == Tier::Quick { vec![a] } else { vec![a, b] }, false, true)
+                    // plus the first storage operations of the request that follows each flush / reopen
+                    // step (a flush must have made durable whatever preceded it, however it was written)
+                    let mut ks = vec![a, b];
+                    for (i, op) in case.ops.iter().enumerate() {
+                        if matches!(op, Op::Flush | Op::Reopen) && i + 1 < case.ops.len() {
+                            if let Some(&after) = trace.after_step.get(i) {
+                                ks.push(after);
+                                ks.push(after + 1);
+                            }
+                        }
+                    }
+                    ks.sort();
+                    ks.dedup();
+                    ks.retain(|k| *k < trace.total);
+                    ks.truncate(ctx.tier.pick(6, 12));
+                    (ks, false, true)
                 }
             };
             o.label(format!("mode/{}", match case.mode { Mode::NoFault => "no-fault", Mode::FaultAll { .. } => "fault-all", Mode::FaultAt { .. } => "fault-at", Mode::Crash { .. } => "crash" }));
